@@ -4,7 +4,7 @@ import random
 
 from .. import core, lifecheck as L
 
-ALL = ["p1", "p2", "p3", "p4", "p5", "p6", "bad", "bad2"]
+ALL = ["p1", "p2", "p3", "p4", "p5", "p6", "p7", "p8", "p9", "bad", "bad2"]
 
 
 def with_how(rng, hist):
@@ -34,7 +34,7 @@ def random_history(rng, n):
             ops.append(["deact", p, rng.choice(["normal", "exc", "explicit", "derived"])])
             status[p] = "done"
         else:
-            ops.append(["call", rng.choice(["f", "g"]), k + 1])
+            ops.append(["call", rng.choice(["f", "g"]), rng.choice([k + 1, 12])])
     return ops
 
 
@@ -43,8 +43,8 @@ def run(out, tier, seed):
     work = core.scratch("c05-")
     cases = []
     sigs_all = {}
-    plans = [(5, ["p1", "p3", "p4", "bad"]), (4, ["p6", "p1", "p4"])] if tier == "quick" else \
-            [(6, ["p1", "p3", "p4", "bad"]), (6, ["p2", "p5", "p4", "bad2"]), (5, ["p1", "p2", "p3", "p4", "p5"]), (6, ["p6", "p1", "p4", "bad2"])]
+    plans = [(5, ["p1", "p3", "p4", "bad"]), (4, ["p6", "p1", "p4"]), (4, ["p7", "p8", "p9"])] if tier == "quick" else \
+            [(6, ["p1", "p3", "p4", "bad"]), (6, ["p2", "p5", "p4", "bad2"]), (5, ["p1", "p2", "p3", "p4", "p5"]), (6, ["p6", "p1", "p4", "bad2"]), (6, ["p7", "p8", "p9", "p1"])]
     for maxops, uni in plans:
         hists, sigs = L.explore(out, maxops, uni, f"LifeMechMC[{maxops},{'+'.join(uni)}]")
         for s, w in sigs.items():
